@@ -23,11 +23,6 @@ def ObsRel (a b : Obs κ ν) : Prop :=
 theorem ObsRel.rfl' (a : Obs κ ν) (h : ∀ l, a ≠ .items l) : ObsRel a a := by
   cases a <;> simp [ObsRel] at *
 
-/-- `assign(t, t)` is excluded (known finding: it empties `t`) -/
-def Op.noSelfAssign : Op κ ν → Prop
-  | .assign d s => d ≠ s
-  | _ => True
-
 /-- every table variable represents the corresponding specification map -/
 def StRel (hash : κ → Nat) (ts : List (Tab κ ν)) (ms : List (Spec κ ν)) : Prop :=
   ts.length = ms.length ∧ ∀ i (h1 : i < ts.length) (h2 : i < ms.length), Rep hash ts[i] ms[i]
@@ -61,7 +56,7 @@ theorem strel_replicate (cfg : Cfg) (g : GoodCfg cfg) (hash : κ → Nat) (N : N
 
 /-- **one step** -/
 theorem step_refines (cfg : Cfg) (g : GoodCfg cfg) (hash : κ → Nat) (ts : List (Tab κ ν)) (ms : List (Spec κ ν))
-    (R : StRel hash ts ms) (op : Op κ ν) (hop : op.noSelfAssign) :
+    (R : StRel hash ts ms) (op : Op κ ν) :
     ∃ ts' o, step cfg hash ts op = .ok (ts', o) ∧ StRel hash ts' (specStep ms op).1 ∧ ObsRel o (specStep ms op).2 := by
   cases op with
   | new t =>
@@ -162,10 +157,16 @@ theorem step_refines (cfg : Cfg) (g : GoodCfg cfg) (hash : κ → Nat) (ts : Lis
       | none => simp only [hmd, R.none hs]; exact ⟨_, _, rfl, R, rfl⟩
       | some sb =>
         obtain ⟨m, hm, r⟩ := R.get hs
-        obtain ⟨t', e1, r1⟩ := assignFrom_rep cfg g hash sb m r
-        have hne : d ≠ s := hop
-        simp only [hmd, hm, hne, if_false, e1]
-        exact ⟨_, _, rfl, R.set d r1, rfl⟩
+        by_cases hds : d = s
+        · -- `assign(t, t)`: the guard returns at once, the table and the map stay as they are
+          subst hds
+          rw [hd] at hs; cases hs
+          simp only [hmd, if_true, assignSelf, g.guards]
+          refine ⟨_, _, rfl, ?_, rfl⟩
+          rw [set_self_of_getElem? hd, set_self_of_getElem? hmd]; exact R
+        · obtain ⟨t', e1, r1⟩ := assignFrom_rep cfg g hash sb m r
+          simp only [hmd, hm, hds, if_false, e1]
+          exact ⟨_, _, rfl, R.set d r1, rfl⟩
   | copy d s =>
     simp only [step, specStep]
     cases hd : ts[d]? with
@@ -179,20 +180,36 @@ theorem step_refines (cfg : Cfg) (g : GoodCfg cfg) (hash : κ → Nat) (ts : Lis
         obtain ⟨t', e1, r1⟩ := assignFrom_rep cfg g hash sb m r
         simp only [hmd, hm, e1]
         exact ⟨_, _, rfl, R.set d r1, rfl⟩
+  | newWith t kvs odd =>
+    simp only [step, specStep, R.1]
+    split
+    · cases odd with
+      | true => exact ⟨_, _, rfl, R, rfl⟩
+      | false =>
+        obtain ⟨t', e1, r1⟩ := fill_rep cfg g hash kvs
+        simp only [e1, Bool.false_eq_true, if_false]
+        exact ⟨_, _, rfl, R.set t r1, rfl⟩
+    · exact ⟨_, _, rfl, R, rfl⟩
+  | assignMap d kvs =>
+    simp only [step, specStep, R.1]
+    split
+    · obtain ⟨t', e1, r1⟩ := fill_rep cfg g hash kvs
+      simp only [e1]
+      exact ⟨_, _, rfl, R.set d r1, rfl⟩
+    · exact ⟨_, _, rfl, R, rfl⟩
 
 /-- **histories** -/
 theorem run_refines (cfg : Cfg) (g : GoodCfg cfg) (hash : κ → Nat) :
     ∀ (ops : List (Op κ ν)) (ts : List (Tab κ ν)) (ms : List (Spec κ ν)), StRel hash ts ms →
-      (∀ op ∈ ops, op.noSelfAssign) →
       ∃ ts' os, run cfg hash ts ops = .ok (ts', os) ∧ StRel hash ts' (specRun ms ops).1 ∧
         List.Forall₂ ObsRel os (specRun ms ops).2 := by
   intro ops
   induction ops with
-  | nil => intro ts ms R _; exact ⟨ts, [], rfl, R, List.Forall₂.nil⟩
+  | nil => intro ts ms R; exact ⟨ts, [], rfl, R, List.Forall₂.nil⟩
   | cons op ops ih =>
-    intro ts ms R hops
-    obtain ⟨ts1, o, e1, R1, ho⟩ := step_refines cfg g hash ts ms R op (hops op List.mem_cons_self)
-    obtain ⟨ts2, os, e2, R2, hos⟩ := ih ts1 (specStep ms op).1 R1 (fun o ho => hops o (List.mem_cons_of_mem _ ho))
+    intro ts ms R
+    obtain ⟨ts1, o, e1, R1, ho⟩ := step_refines cfg g hash ts ms R op
+    obtain ⟨ts2, os, e2, R2, hos⟩ := ih ts1 (specStep ms op).1 R1
     refine ⟨ts2, o :: os, ?_, ?_, ?_⟩
     · simp only [run, e1, e2]
     · simpa [specRun] using R2
